@@ -185,6 +185,12 @@ func (a *AvahiProvider) Announce(serviceName string, port int, txt []string) err
 		btxt = append(btxt, []byte(t))
 	}
 
+	// a new announcement replaces the previous one
+	if a.avEntryGroup != nil {
+		a.avServer.EntryGroupFree(a.avEntryGroup)
+		a.avEntryGroup = nil
+	}
+
 	entryGroup, err := a.avServer.EntryGroupNew()
 	if err != nil {
 		return err
@@ -235,6 +241,7 @@ func (a *AvahiProvider) avahiCallback(event avahi.Event) {
 
 	// the server was shutdown, set it to nil so we don't try to call free functions
 	// on shutting down a currently running resolve
+	a.avEntryGroup = nil
 	cb := a.resolveCB
 	a.mux.Unlock()
 
